@@ -3,6 +3,7 @@ import itertools
 
 import abbr_gen as g
 import c01_lex as lex
+import c01_routes as routes
 from markup_util import run_cases, canon_cfg
 
 CONFIGS = [{}, {'syntax': 'xml'}, {'options': {'output.selfClosingStyle': 'xhtml'}},
@@ -32,6 +33,8 @@ DEEP_NESTING = True          # generator class "nesting far deeper than any exam
 INLINE_PARENTS_FULL = True   # generator class "nameless element below EVERY documented inline / mapped parent" on / off
 LEXICAL_CASE = True          # generator class "every spelling of names and class / id / attribute identifiers, side by side" on / off
 NUMBERING_AT_OPERATORS = True   # generator class "numbering tokens in identifiers, directly in front of every operator" on / off
+CALL_ROUTES = True           # generator class "every documented call route x global-config layers for the type / the syntax" on / off
+LONG_LIVED_CONFIG = True     # generator class "ONE Config / dict object over a sequence of calls, its context / options re-assigned in between" on / off
 
 
 def use_documented_inline():
@@ -508,6 +511,70 @@ def numbering_at_operators(ctx, add, names):
     ctx.cov['numbering_statements'] = n
 
 
+def vocabulary():
+    """(plain names, same-name snippets) as used by gen()."""
+    from emmet.markup.implicit_tag import ELEMENT_MAP
+    snips = [s for s in g.same_name_snippets() if s[0] not in ELEMENT_MAP or s[0] in g.IMPLICIT_DOC]
+    return g.safe_names(), snips
+
+
+def call_routes(ctx):
+    """The tree does not depend on HOW the abbreviation and its configuration reach the library: every documented call
+    route (c01_routes.ROUTE_NAMES) with global-config entries for the type, the syntax, both, unrelated ones; the options
+    the tree depends on (self-closing style, inline list) written in each of the layers.  Implementation + property
+    oracle only (the extracted model takes the resolved Config of the two-argument route)."""
+    use_documented_inline()
+    names, snips = vocabulary()
+    cases = routes.route_cases(ctx, names, snips, 700 if ctx.tier == 'quick' else 12000)
+    for route, abbr, user, glob, meta in cases:
+        r = routes.run_route(route, abbr, user, glob)
+        ctx.count_eval()
+        ctx.nontrivial('%s@%s|%s|%s' % (abbr, route, canon_cfg(user), canon_cfg(glob))) if len(meta) >= 2 else None
+        bad = oracle(abbr, user, meta, r)
+        if bad:
+            ctx.property_failure('C01:route:%s|%s|%s|%s' % (route, abbr, canon_cfg(user), canon_cfg(glob)),
+                                 'C01 %s with abbr=%r config=%s global=%s: %s' % (route, abbr[:300], canon_cfg(user), canon_cfg(glob), bad),
+                                 {'component': 'C01-route', 'route': route, 'abbr': abbr, 'config': user, 'global': glob,
+                                  'meta': meta, 'impl': repr(r)[:500], 'why': bad})
+    ctx.cov['call_route_cases'] = len(cases)
+
+
+def session_failures(sess, results):
+    return [(k, oracle(st['abbr'], sess['config'], [tuple(x) for x in st['meta']], r))
+            for k, (st, r) in enumerate(zip(sess['steps'], results))]
+
+
+def long_lived(ctx):
+    """One configuration object for a whole sequence of expansions; the caller re-assigns its context / options between
+    the calls.  Every expansion must give the tree denoted under the state the caller has set at that moment."""
+    use_documented_inline()
+    names, snips = vocabulary()
+    sessions = routes.sessions(ctx, names, snips, 60 if ctx.tier == 'quick' else 1200, 12)
+    n = 0
+    for sess in sessions:
+        results = routes.run_session(sess)
+        n += len(results)
+        for st in sess['steps']:
+            ctx.count_eval()
+            ctx.nontrivial('session:%s@%s' % (st['abbr'], st.get('set_context', 'kept')))
+        for k, bad in session_failures(sess, results):
+            if not bad:
+                continue
+            # smallest call sequence that still shows it: the failing call alone after the state changes made before it
+            for small in (routes.reduce_session(sess, k, False), routes.reduce_session(sess, k), dict(sess, steps=sess['steps'][:k + 1])):
+                if session_failures(small, routes.run_session(small))[-1][1]:
+                    break
+            st = sess['steps'][k]
+            ctx.property_failure('C01:session:%s|%s|%s|step%d:%s' % (sess['carrier'], canon_cfg(sess['config']), canon_cfg(sess['global']), k, st['abbr']),
+                                 'C01 one %s object reused (config=%s global=%s), call %d: %s of %r after context=%r options=%r: %s'
+                                 % (sess['carrier'], canon_cfg(sess['config']), canon_cfg(sess['global']), k + 1, st['route'], st['abbr'],
+                                    small['steps'][-1].get('set_context', 'as built'), small['steps'][-1].get('set_options', {}), bad),
+                                 {'component': 'C01-session', 'carrier': small['carrier'], 'config': small['config'],
+                                  'global': small['global'], 'steps': small['steps'], 'why': bad})
+            break
+    ctx.cov['long_lived_config'] = {'sessions': len(sessions), 'calls': n}
+
+
 def run(ctx):
     ok = ctx.build(['props/C01.vo', 'props/C01String.vo', 'props/C01Expand.vo', 'props/C01Implicit.vo', 'run/MarkupRun.vo'])
     if ok:
@@ -548,6 +615,29 @@ def run(ctx):
                        'elements with an own *N, the @ forms; `$@^` only in classes / ids / values / text, where the tree oracle '
                        'needs no value; never generated: `$@` or `$@^` directly before a climb (that `^` is a modifier by the '
                        'documented reading) and tokens in names that number into a snippet key; '
+                       'call routes (routes:*): the same kind of statements (void snippet elements and `x/` elements as leaves, as parents, '
+                       'below repeated parents, in repeated groups, after climbs; nameless elements; random statements) through every '
+                       'documented call route -- expand(abbr, dict, global_config), expand(abbr, Config(dict, global)), '
+                       'expand_markup(abbr, Config), markup.parse + markup.stringify, a pre-parsed Abbreviation tree given to markup.parse '
+                       '-- for the syntaxes html / xhtml / xml / xsl, with a global config that has an entry for the abbreviation type '
+                       '(`markup`), for the syntax, for both, for unrelated syntaxes / types only (carrying options that would change the '
+                       'tree if they applied), or is empty / absent; the entries carry `options` / `variables` / `snippets` sections '
+                       '(also empty ones) with tree-neutral content; the self-closing style in force is written in each possible layer '
+                       '(built-in syntax profile, the call config, the global syntax entry, the global type entry [html syntax only]), '
+                       'likewise a user-defined inline element list and format on/off; every syntax x global shape x style layer with '
+                       'fixed shapes, plus random statements under random such configurations; '
+                       'long-lived configuration (session:*): ONE Config object (built from dict / dict + global, with or without a '
+                       'context) or one caller-owned dict is used for 12 expansions in a row; between calls the caller assigns '
+                       '`context` (moved to another parent: every documented mapped parent, block / inline / unknown names, other '
+                       'letter case, empty name; or removed) and changes entries of `options` (self-closing style, format, inline list); '
+                       'each call goes through expand / expand_markup / parse + stringify / pre-parsed tree; the tree of every call must '
+                       'be the one denoted under the state set at that moment (top-level nameless elements named after the CURRENT '
+                       'context); a failing call is reported as the shortest sequence that still fails; '
+                       'routes:* and session:* cases are judged by implementation + property oracle only (the extracted model takes the '
+                       'resolved configuration of the two-argument route; not sent through it); the documented facts they use '
+                       '(self-closing style of the built-in syntax profiles, user config > global syntax entry > built-in profile) are '
+                       'hard-coded in harness/c01_routes.py; never generated: a style conflict between the global TYPE entry and a '
+                       'built-in SYNTAX profile (C20 subject); '
                        'non-trivial = denotes at least two elements; distinct by abbreviation text. Oracle: element tree of '
                        'the output (tag parser) = independent denotation of the AST (inline-ness from the hard-coded documented list). '
                        'Excluded shapes: ")>" (child of a group).' % (DEEP_MAX - 10, DEEP_MAX - 10, MODEL_INDENT_BUDGET))
@@ -562,6 +652,10 @@ def run(ctx):
             ctx.property_failure('C01:%s|%s' % (abbr, canon_cfg(cfg)), 'C01 expand(%r, %s): %s' % (abbr[:300], canon_cfg(cfg), bad),
                                  {'component': 'C01', 'abbr': abbr, 'config': cfg, 'meta': meta, 'impl': repr(r)[:500], 'why': bad})
     poisoned_sequences(ctx, cases)
+    if CALL_ROUTES:
+        call_routes(ctx)
+    if LONG_LIVED_CONFIG:
+        long_lived(ctx)
     for (abbr, cfg, exp), r in list(zip(cases, impl))[200:204]:
         ctx.sample({'abbr': abbr, 'config': cfg, 'denoted': exp[:8], 'output': r[1][:120] if r[0] == 'ok' else r})
 
@@ -596,10 +690,26 @@ def poisoned_sequences(ctx, cases):
 
 def replay(ctx, obj):
     rp = obj.get('replay', {})
-    if 'abbr' not in rp:
+    if 'abbr' not in rp and rp.get('component') != 'C01-session':
         print('replay names a broken obligation, no input: %s' % str(rp)[:300])
         return 1
     from markup_util import impl_expand
+    if rp.get('component') == 'C01-route':
+        r = routes.run_route(rp['route'], rp['abbr'], rp['config'], rp['global'])
+        bad = oracle(rp['abbr'], rp['config'], [tuple(x) for x in rp['meta']], r)
+        print('%s: abbr=%r config=%r global=%r -> %s : %s' % (rp['route'], rp['abbr'], rp['config'], rp['global'], repr(r)[:600], bad or 'property holds'))
+        return 1 if bad else 0
+    if rp.get('component') == 'C01-session':
+        results = routes.run_session(rp)
+        rc = 0
+        print('one %s object built from config=%r global=%r' % (rp['carrier'], rp['config'], rp['global']))
+        for (k, bad), st, r in zip(session_failures(rp, results), rp['steps'], results):
+            print('  call %d: %s%s%s with abbr=%r -> %s : %s' % (
+                k + 1, 'context := %r; ' % (st['set_context'],) if 'set_context' in st else '',
+                'options.update(%r); ' % (st['set_options'],) if st.get('set_options') else '', st['route'], st['abbr'],
+                repr(r)[:400], bad or 'property holds'))
+            rc = rc or (1 if bad else 0)
+        return rc
     if rp.get('component') == 'C01-sequence':
         impl_expand(rp['poison'], rp['config'])
         r = impl_expand(rp['abbr'], rp['config'])
